@@ -54,6 +54,8 @@ pub fn c16(rng: &mut Rng, thorough: bool, _idx: u64) -> Spec {
     let cycles = rng.range(1, if thorough { 4 } else { 2 });
     // admin: PAUSE / RESUME cycles
     let mut admin_steps = Vec::new();
+    let mut reload_actions: Vec<ActionSpec> = Vec::new();
+    let mut reloads = 0u64;
     let mut pause_scopes: Vec<String> = Vec::new();
     let mut t_prev = rng.range(5, 60);
     for cyc in 0..cycles {
@@ -61,6 +63,18 @@ pub fn c16(rng: &mut Rng, thorough: bool, _idx: u64) -> Spec {
         admin_steps.push(Step::Think { ms: t_prev });
         admin_steps.push(q(format!("PAUSE {}", scope).trim().to_string(), 0));
         admin_steps.push(Step::Emit { ev: format!("paused{}", cyc) });
+        if rng.chance(0.3) {
+            // a reload of a file in which something that does not concern the pools changed:
+            // the paused pool stays paused, and those it holds are still released by RESUME
+            let mut changed = cfg.clone();
+            changed.set("ban_time", 61 + cyc);
+            reload_actions.push(ActionSpec { at: When::After { ev: format!("paused{}", cyc), delay_ms: 1 }, act: Action::SetFile { kind: "data".into(), content: changed.render() } });
+            reload_actions.push(ActionSpec { at: When::After { ev: format!("paused{}", cyc), delay_ms: 2 }, act: Action::Emit { ev: format!("file{}", cyc) } });
+            admin_steps.push(Step::Think { ms: rng.range(0, 100) });
+            admin_steps.push(Step::Wait { ev: format!("file{}", cyc) });
+            admin_steps.push(q("RELOAD".into(), 0));
+            reloads += 1;
+        }
         admin_steps.push(Step::Think { ms: rng.range(0, 200) });
         // sometimes RESUME right after a specific client's message was delivered
         if rng.chance(0.3) {
@@ -122,7 +136,7 @@ pub fn c16(rng: &mut Rng, thorough: bool, _idx: u64) -> Spec {
         }
         // make sure the event the admin may wait for always fires eventually
     }
-    let mut actions = Vec::new();
+    let mut actions = reload_actions;
     for cyc in 0..cycles {
         actions.push(ActionSpec { at: When::After { ev: format!("paused{}", cyc), delay_ms: 400 }, act: Action::Emit { ev: format!("arrive{}.sent", cyc) } });
     }
@@ -130,6 +144,7 @@ pub fn c16(rng: &mut Rng, thorough: bool, _idx: u64) -> Spec {
     let mut spec = Spec { config_toml: cfg.render(), hosts: cfg.hosts(), net, clients, actions, end: EndSpec { deadline_ms: 2_000_000, calm_ms: 100 }, ..Default::default() };
     spec.params = params_from(&cfg);
     spec.params.insert("pause_scopes".into(), serde_json::json!(pause_scopes));
+    spec.params.insert("reloads_while_paused".into(), serde_json::json!(reloads));
     // random subset of the yield sites around wait_paused / checkout
     for site in ["pool.wait_paused.between", "pool.wait_paused.before_wait", "client.after_wait_paused", "client.before_get"] {
         if rng.chance(0.5) {
